@@ -271,12 +271,20 @@ func (s *Sandbox) imageImportTar(ls *lua.LState) int {
 		}
 		defer done()
 	}
+	s.log.Info("Import image",
+		slog.String("script", s.name),
+		slog.String("target", tgt.r.CommonName()),
+		slog.String("file", file),
+		slog.Bool("dry-run", s.dryRun))
 	//#nosec G304 command is run by a user accessing their own files
 	rs, err := os.Open(file)
 	if err != nil {
 		ls.RaiseError("Failed to read from \"%s\": %v", file, err)
 	}
 	defer rs.Close()
+	if s.dryRun {
+		return 0
+	}
 	err = s.rc.ImageImport(s.ctx, tgt.r, rs)
 	if err != nil {
 		ls.RaiseError("Failed to import image \"%s\" from \"%s\": %v", tgt.r.CommonName(), file, err)
